@@ -101,7 +101,7 @@ IndexFromLog == holder' = FromRec(Rec.hold, Files) /\ owner' = FromRec(Rec.own, 
 \* Marks are short (PrintT must keep each on one line): <surface>:<what>[:<input class>]
 
 \* f's item names another directory (object) as its owner than the shared directory holding it
-StaleOwner(f) == f \in staleItems \/ owner[f] # Inner(f)
+StaleOwner(f) == f \in staleItems \/ (holder[f] # None /\ owner[f] # Inner(f))
 ClassOf(fs) == IF \E f \in fs : StaleOwner(f) THEN ":stale-owner" ELSE ":plain"
 
 BadListed == {f \in obs.normal : ~(Inner(f) # None => Allows(obs.u, Inner(f), friends))}
